@@ -189,7 +189,15 @@ pub fn load_pnm(path: impl AsRef<Path>) -> Result<Buf2<Color3>> {
 /// Returns [`pnm::Error`][Error] in case of an I/O error or invalid PNM image.
 #[cfg(feature = "std")]
 pub fn read_pnm(input: impl Read) -> Result<Buf2<Color3>> {
-    parse_pnm(input.bytes().map_while(io::Result::ok))
+    // Stop at the first I/O error, for good (`map_while` alone would
+    // resume after it), and report it rather than what was parsed
+    let mut io_res: Result<()> = Ok(());
+    let bytes = input
+        .bytes()
+        .map_while(|r| r.map_err(|e| io_res = Err(e.into())).ok())
+        .fuse();
+    let res = parse_pnm(bytes);
+    io_res.and(res)
 }
 
 /// Attempts to decode a PNM image from an iterator of bytes.
